@@ -193,6 +193,8 @@ class SymExec:
                         choice = cond.a
                     elif self.decide is not None:
                         choice = self.decide(cond, t)
+                    if choice is None:
+                        choice = _known_variant_test(cond)
                     targets = t["targets"]
                     vals = [v_ for v_, _ in targets]
                     if choice is not None:
@@ -214,6 +216,31 @@ class SymExec:
                     continue
                 raise RuntimeError("unknown terminator " + k)
         return self.paths
+
+
+def _known_variant_test(cond):
+    """value of `is_err / is_ok / is_some / is_none` applied to a value whose variant is known on this
+    path (an aggregate built here, or the residual of a `?` that took the Break edge)"""
+    c = cond
+    neg = False
+    while c.k == "unop" and c.a == "Not":
+        c = c.b
+        neg = not neg
+    if c.k != "call" or c.a.name not in ("is_err", "is_ok", "is_some", "is_none") or not c.b:
+        return None
+    v = c.b[0]
+    while v.k in ("ref", "cast"):
+        v = v.a if v.k == "ref" else v.b
+    variant = None
+    if v.k == "agg" and v.b in ("Ok", "Err", "Some", "None"):
+        variant = v.b
+    elif v.k == "call" and v.a.name == "from_residual":
+        variant = "Err" if c.a.name in ("is_err", "is_ok") else "None"
+    if variant is None:
+        return None
+    truth = {"is_err": variant == "Err", "is_ok": variant == "Ok", "is_some": variant == "Some",
+             "is_none": variant == "None"}[c.a.name]
+    return int(truth != neg)
 
 
 def variant_name(fn, cond, value, others=None):
